@@ -1,5 +1,166 @@
 import MlodaVerif.Model.Time
-/-! Helper lemmas about `Model/Time.lean` for `Props/C11.lean`. -/
+/-! Helper lemmas about `Model/Time.lean` for `Props/C11.lean` (no Mathlib): `_ymd2ord ∘ _ord2ymd = id`, fixed-width
+formatting is injective. -/
 namespace Time
+
+def doyOf (leap : Bool) (m d : Nat) : Nat := daysBeforeMonthTbl m + (if m > 2 ∧ leap then 1 else 0) + (d - 1)
+
+theorem monthDay_spec_aux : ∀ n, n < 366 → ∀ leap : Bool, (n < 365 ∨ leap = true) →
+    (1 ≤ (monthDay leap n).1 ∧ (monthDay leap n).1 ≤ 12 ∧ 1 ≤ (monthDay leap n).2 ∧ (monthDay leap n).2 ≤ 31 ∧
+      doyOf leap (monthDay leap n).1 (monthDay leap n).2 = n) := by
+  decide +kernel
+
+theorem ymd2ord0_eq (y m d : Nat) : ymd2ord0 y m d = daysBeforeYear y + doyOf (isLeap y) m d := by
+  simp [ymd2ord0, doyOf, Nat.add_assoc]
+
+/-- the decomposition computed by the first half of `_ord2ymd` -/
+theorem decomp (n0 : Nat) :
+    ∃ a b c d r1 : Nat,
+      n0 / 146097 = a ∧ n0 % 146097 / 36524 = b ∧ n0 % 146097 % 36524 / 1461 = c ∧
+      n0 % 146097 % 36524 % 1461 / 365 = d ∧ n0 % 146097 % 36524 % 1461 % 365 = r1 ∧
+      n0 = 146097 * a + 36524 * b + 1461 * c + 365 * d + r1 ∧
+      b ≤ 4 ∧ c ≤ 24 ∧ d ≤ 4 ∧ r1 < 365 ∧ (b = 4 → c = 0 ∧ d = 0 ∧ r1 = 0) ∧ (d = 4 → r1 = 0) ∧
+      (c = 24 → d ≤ 3) := by
+  refine ⟨_, _, _, _, _, rfl, rfl, rfl, rfl, rfl, ?_⟩
+  omega
+
+theorem isLeap_year (a b c d : Nat) (hb : b ≤ 4) (hc : c ≤ 24) (hd : d ≤ 3) (_hb4 : b = 4 → c = 0 ∧ d = 0) :
+    isLeap (a * 400 + 1 + b * 100 + c * 4 + d) = decide (d = 3 ∧ (c ≠ 24 ∨ b = 3)) := by
+  rw [Bool.eq_iff_iff]
+  simp only [isLeap, decide_eq_true_eq]
+  omega
+
+theorem dby_year (a b c d : Nat) (hb : b ≤ 3) (hc : c ≤ 24) (hd : d ≤ 3) :
+    daysBeforeYear (a * 400 + 1 + b * 100 + c * 4 + d) = 146097 * a + 36524 * b + 1461 * c + 365 * d := by
+  simp only [daysBeforeYear]
+  omega
+
+theorem ord2ymd_inv (n0 : Nat) : ymd2ord0 (ord2ymd n0).1 (ord2ymd n0).2.1 (ord2ymd n0).2.2 = n0 := by
+  rw [ymd2ord0_eq]
+  obtain ⟨a, b, c, d, r1, h1, h2, h3, h4, h5, hn, hb, hc, hd, hr, _hb4, hd4, hc24⟩ := decomp n0
+  unfold ord2ymd
+  simp only [h1, h2, h3, h4, h5]
+  split
+  · rename_i h
+    rcases h with h | h
+    · have hy : a * 400 + 1 + b * 100 + c * 4 + d - 1 = a * 400 + 1 + b * 100 + c * 4 + 3 := by omega
+      have hb3 : b ≤ 3 := by omega
+      have hl := isLeap_year a b c 3 hb hc (by omega) (fun h' => by omega)
+      have hc' : c ≠ 24 := by omega
+      simp only [hy, hl, dby_year a b c 3 hb3 hc (by omega), doyOf, daysBeforeMonthTbl]
+      simp [hc']
+      omega
+    · have hy : a * 400 + 1 + b * 100 + c * 4 + d - 1 = a * 400 + 1 + 3 * 100 + 24 * 4 + 3 := by omega
+      have hl := isLeap_year a 3 24 3 (by omega) (by omega) (by omega) (fun h' => by omega)
+      simp only [hy, hl, dby_year a 3 24 3 (by omega) (by omega) (by omega), doyOf, daysBeforeMonthTbl]
+      simp
+      omega
+  · rename_i h
+    have hb3 : b ≤ 3 := by omega
+    have hd3 : d ≤ 3 := by omega
+    have hl := isLeap_year a b c d hb hc hd3 (fun h' => by omega)
+    have hspec := monthDay_spec_aux r1 (by omega) (decide (d = 3 ∧ (c ≠ 24 ∨ b = 3))) (Or.inl hr)
+    simp only [hl, dby_year a b c d hb3 hc hd3, hspec.2.2.2.2]
+    omega
+
+
+theorem digitChar_inj : ∀ a, a < 10 → ∀ b, b < 10 → digitChar a = digitChar b → a = b := by decide
+
+theorem pad2_inj {a b : Nat} (ha : a < 100) (hb : b < 100) (h : pad2 a = pad2 b) : a = b := by
+  simp only [pad2, List.cons.injEq, and_true] at h
+  have h1 := digitChar_inj _ (by omega) _ (by omega) h.1
+  have h2 := digitChar_inj _ (by omega) _ (by omega) h.2
+  omega
+
+theorem pad4_inj {a b : Nat} (ha : a < 10000) (hb : b < 10000) (h : pad4 a = pad4 b) : a = b := by
+  simp only [pad4, List.cons.injEq, and_true] at h
+  have h1 := digitChar_inj _ (by omega) _ (by omega) h.1
+  have h2 := digitChar_inj _ (by omega) _ (by omega) h.2.1
+  have h3 := digitChar_inj _ (by omega) _ (by omega) h.2.2.1
+  have h4 := digitChar_inj _ (by omega) _ (by omega) h.2.2.2
+  omega
+
+theorem pad6_inj {a b : Nat} (ha : a < 1000000) (hb : b < 1000000) (h : pad6 a = pad6 b) : a = b := by
+  simp only [pad6, List.cons.injEq, and_true] at h
+  have h1 := digitChar_inj _ (by omega) _ (by omega) h.1
+  have h2 := digitChar_inj _ (by omega) _ (by omega) h.2.1
+  have h3 := digitChar_inj _ (by omega) _ (by omega) h.2.2.1
+  have h4 := digitChar_inj _ (by omega) _ (by omega) h.2.2.2.1
+  have h5 := digitChar_inj _ (by omega) _ (by omega) h.2.2.2.2.1
+  have h6 := digitChar_inj _ (by omega) _ (by omega) h.2.2.2.2.2
+  omega
+
+theorem frac_inj {a b : Nat} (ha : a < 1000000) (hb : b < 1000000)
+    (h : fracChars a ++ utcSuffix = fracChars b ++ utcSuffix) : a = b := by
+  unfold fracChars at h
+  by_cases ha0 : a = 0 <;> by_cases hb0 : b = 0
+  · omega
+  · simp [ha0, hb0, utcSuffix, pad6] at h
+  · simp [ha0, hb0, utcSuffix, pad6] at h
+  · simp only [ha0, hb0, if_false, List.cons_append, List.cons.injEq, true_and] at h
+    have := (List.append_inj h (by simp [pad6])).1
+    exact pad6_inj ha hb this
+
+theorem isoChars_inj {y m d hh mm ss us y' m' d' hh' mm' ss' us' : Nat}
+    (hy : y < 10000) (hy' : y' < 10000) (hm : m < 100) (hm' : m' < 100) (hd : d < 100) (hd' : d' < 100)
+    (hhh : hh < 100) (hhh' : hh' < 100) (hmm : mm < 100) (hmm' : mm' < 100) (hss : ss < 100) (hss' : ss' < 100)
+    (hus : us < 1000000) (hus' : us' < 1000000)
+    (h : isoChars y m d hh mm ss us = isoChars y' m' d' hh' mm' ss' us') :
+    y = y' ∧ m = m' ∧ d = d' ∧ hh = hh' ∧ mm = mm' ∧ ss = ss' ∧ us = us' := by
+  unfold isoChars at h
+  have l4 : ∀ n k, (pad4 n).length = (pad4 k).length := fun _ _ => rfl
+  have l2 : ∀ n k, (pad2 n).length = (pad2 k).length := fun _ _ => rfl
+  obtain ⟨e1, h⟩ := List.append_inj h (l4 _ _)
+  obtain ⟨e2, h⟩ := List.append_inj (List.cons.inj h).2 (l2 _ _)
+  obtain ⟨e3, h⟩ := List.append_inj (List.cons.inj h).2 (l2 _ _)
+  obtain ⟨e4, h⟩ := List.append_inj (List.cons.inj h).2 (l2 _ _)
+  obtain ⟨e5, h⟩ := List.append_inj (List.cons.inj h).2 (l2 _ _)
+  obtain ⟨e6, h⟩ := List.append_inj (List.cons.inj h).2 (l2 _ _)
+  exact ⟨pad4_inj hy hy' e1, pad2_inj hm hm' e2, pad2_inj hd hd' e3, pad2_inj hhh hhh' e4, pad2_inj hmm hmm' e5,
+    pad2_inj hss hss' e6, frac_inj hus hus' h⟩
+
+
+theorem ord2ymd_inj {n n' : Nat} (h : ord2ymd n = ord2ymd n') : n = n' := by
+  have h1 := ord2ymd_inv n
+  have h2 := ord2ymd_inv n'
+  rw [h] at h1; rw [h1] at h2; exact h2
+
+/-- field widths: inside years 1..9999 the year has at most four digits, month and day two -/
+theorem ord2ymd_bounds (n0 : Nat) (hn : n0 < maxDays) :
+    (ord2ymd n0).1 < 10000 ∧ (ord2ymd n0).2.1 < 100 ∧ (ord2ymd n0).2.2 < 100 := by
+  obtain ⟨a, b, c, d, r1, h1, h2, h3, h4, h5, hn0, hb, hc, hd, hr, hb4, hd4, hc24⟩ := decomp n0
+  unfold maxDays at hn
+  unfold ord2ymd
+  simp only [h1, h2, h3, h4, h5]
+  split
+  · refine ⟨?_, by simp, by simp⟩
+    show a * 400 + 1 + b * 100 + c * 4 + d - 1 < 10000
+    omega
+  · have hspec := monthDay_spec_aux r1 (by omega) (decide (d = 3 ∧ (c ≠ 24 ∨ b = 3))) (Or.inl hr)
+    refine ⟨?_, Nat.lt_of_le_of_lt hspec.2.1 (by decide), Nat.lt_of_le_of_lt hspec.2.2.2.1 (by decide)⟩
+    show a * 400 + 1 + b * 100 + c * 4 + d < 10000
+    omega
+
+/-- the produced characters determine the instant (seconds and microseconds) -/
+theorem isoOfInstant_inj {s us s' us' : Nat} (hs : s < maxSecs) (hs' : s' < maxSecs) (hus : us < 1000000)
+    (hus' : us' < 1000000) (h : isoOfInstant s us = isoOfInstant s' us') : s = s' ∧ us = us' := by
+  unfold isoOfInstant at h
+  unfold maxSecs at hs hs'
+  have hd : s / 86400 < maxDays := by unfold maxDays at *; omega
+  have hd' : s' / 86400 < maxDays := by unfold maxDays at *; omega
+  obtain ⟨by1, bm1, bd1⟩ := ord2ymd_bounds _ hd
+  obtain ⟨by2, bm2, bd2⟩ := ord2ymd_bounds _ hd'
+  obtain ⟨e1, e2, e3, e4, e5, e6, e7⟩ := isoChars_inj by1 by2 bm1 bm2 bd1 bd2 (by omega) (by omega) (by omega)
+    (by omega) (by omega) (by omega) hus hus' h
+  have hdays : s / 86400 = s' / 86400 := ord2ymd_inj (Prod.ext e1 (Prod.ext e2 e3))
+  exact ⟨by omega, e7⟩
+
+theorem toUtcIso_of_range (a : Aware) (h : 0 ≤ a.wall - a.offset ∧ a.wall - a.offset < (maxSecs : Int)) :
+    toUtcIso a = some (String.ofList (isoOfInstant (a.wall - a.offset).toNat a.micros)) := by
+  unfold toUtcIso; exact if_pos h
+
+theorem toUtcIso_of_not_range (a : Aware) (h : ¬ (0 ≤ a.wall - a.offset ∧ a.wall - a.offset < (maxSecs : Int))) :
+    toUtcIso a = none := by
+  unfold toUtcIso; exact if_neg h
 
 end Time
